@@ -164,11 +164,23 @@ def disjointIPBlocks (e : Engine) : List Iv :=
 -- ------------------------------------------------------------------------------------------
 -- check.go
 
-/-- `getPoliciesSelectingPod` -/
+/-- insert a policy into a list sorted by name, before the first policy whose name is not smaller
+(so that the sort below is stable) -/
+def insertByName (p : NetPol) : List NetPol → List NetPol
+  | [] => [p]
+  | q :: qs => if p.name ≤ q.name then p :: q :: qs else q :: insertByName p qs
+
+/-- the policies in the order of their names: a stable insertion sort (the same list as a stable
+merge sort on the name; written structurally so that the kernel can evaluate it) -/
+def sortByName (l : List NetPol) : List NetPol := l.foldr insertByName []
+
+/-- `getPoliciesSelectingPod`: the policies of the pod's namespace that select it, visited in the
+order of their names (`sort.Strings` on the policy names, in the list path and in the eval path
+alike), whatever the order of the policies map -/
 def policiesSelecting (e : Engine) (peer : KPeer) (d : Dir) : List NetPol :=
   match peer with
   | .ip _ => []
-  | .pod p _ => e.netpols.filter (fun np => np.selects p d)
+  | .pod p _ => sortByName (e.netpols.filter (fun np => np.selects p d))
 
 /-- `isPodToItself` -/
 def isPodToItself (a b : KPeer) : Bool :=
